@@ -378,6 +378,81 @@ fn verdict(g: &mut Grid, case: &str, shared: bool, r: Result<(), String>, before
     }
 }
 
+// ---------------------------------------------------------------- zero-sized headers and elements with destructors
+thread_local! {
+    static ZH_DROPS: std::cell::Cell<usize> = const { std::cell::Cell::new(0) };
+    static ZE_DROPS: std::cell::Cell<usize> = const { std::cell::Cell::new(0) };
+}
+/// a zero-sized header that has a destructor (a guard, a registration token)
+struct ZH;
+impl Drop for ZH {
+    fn drop(&mut self) {
+        ZH_DROPS.with(|c| c.set(c.get() + 1));
+    }
+}
+/// a zero-sized element that has a destructor
+struct ZE;
+impl Drop for ZE {
+    fn drop(&mut self) {
+        ZE_DROPS.with(|c| c.set(c.get() + 1));
+    }
+}
+fn zst_case<E: 'static>(g: &mut Grid, ename: &str, mk: fn() -> E, e_drops: fn() -> usize, n: usize, path: &str) {
+    // element types without a destructor report 0 throughout
+    let counted = std::mem::needs_drop::<E>();
+    let want_e = if counted { n } else { 0 };
+    let case = format!("from_header_and_uninit_slice(zero-sized header with a destructor, {} x {}) then {}", n, ename, path);
+    vrt::begin_execution();
+    g.case(format!("zst|{}|{}|{}", ename, n, path), || case.clone());
+    ZH_DROPS.with(|c| c.set(0));
+    let e0 = e_drops();
+    let mut u = cap(|| UniqueArc::<HeaderSlice<ZH, [MaybeUninit<E>]>>::from_header_and_uninit_slice(ZH, n));
+    if ZH_DROPS.with(|c| c.get()) != 0 {
+        g.fail("header-destroyed-by-ctor", &case, "the header was destroyed although the handle that owns it is alive".into());
+    }
+    if u.slice.len() != n {
+        g.fail("uninit-length", &case, format!("slice length {}", u.slice.len()));
+    }
+    match path {
+        "drop_uninit" => {
+            cap(|| drop(u));
+            if ZH_DROPS.with(|c| c.get()) != 1 || e_drops() != e0 {
+                g.fail("uninit-drop", &case, format!("dropping before assume_init must destroy the header once and no element: header destructor ran {} times, element destructors {}", ZH_DROPS.with(|c| c.get()), e_drops() - e0));
+            }
+        }
+        _ => {
+            cap(|| {
+                for s in u.slice.iter_mut() {
+                    s.write(mk());
+                }
+            });
+            let a = cap(|| unsafe { u.assume_init_slice_with_header() }.shareable());
+            let b = cap(|| a.clone());
+            if ZH_DROPS.with(|c| c.get()) != 0 || e_drops() != e0 || Arc::count(&a) != 2 {
+                g.fail("assume-init-drops", &case, format!("after assume_init and a clone: header destructor ran {} times, element destructors {}, count {}", ZH_DROPS.with(|c| c.get()), e_drops() - e0, Arc::count(&a)));
+            }
+            cap(|| drop(a));
+            if ZH_DROPS.with(|c| c.get()) != 0 {
+                g.fail("destroyed-while-owned", &case, "the header was destroyed while a co-owner is alive".into());
+            }
+            cap(|| drop(b));
+            if ZH_DROPS.with(|c| c.get()) != 1 || e_drops() - e0 != want_e {
+                g.fail("init-drop-accounting", &case, format!("after the last release: header destructor ran {} times (expected 1), element destructors {} (expected {})", ZH_DROPS.with(|c| c.get()), e_drops() - e0, want_e));
+            }
+        }
+    }
+    end_checks(g, &case);
+}
+fn zst_shapes(g: &mut Grid) {
+    for n in 0..=3usize {
+        for path in ["drop_uninit", "assume_init"] {
+            zst_case::<ZE>(g, "zero-sized element with a destructor", || ZE, || ZE_DROPS.with(|c| c.get()), n, path);
+            zst_case::<()>(g, "()", || (), || 0, n, path);
+            zst_case::<u32>(g, "u32", || 7, || 0, n, path);
+        }
+    }
+}
+
 pub fn run(tier: &str) -> Vec<Grid> {
     let n = if tier == "thorough" { 6 } else { 4 };
     let mut g = Grid::new("c15.uninit", "uninit constructor x length 0..=N x every subset of slots written x {drop before assume_init, assume_init (full subset), assume_init then share/convert}; sized forms x written/unwritten; deprecated write/as_mut_slice x sharing state");
@@ -392,5 +467,6 @@ pub fn run(tier: &str) -> Vec<Grid> {
     sized_plain(&mut g, "u128", 7u128);
     sized_plain(&mut g, "()", ());
     deprecated_writes(&mut g);
+    zst_shapes(&mut g);
     vec![g]
 }
